@@ -350,6 +350,16 @@ package stats
 //@     ifloor(r8h(len(a), q)) >= len(a) ? a[len(a)-1] :
 //@     a[ifloor(r8h(len(a), q))-1] + (r8h(len(a), q) - ifloor(r8h(len(a), q))) * (a[ifloor(r8h(len(a), q))] - a[ifloor(r8h(len(a), q))-1])
 
+// Laws of the type-8 quantile on an ascending array (C10): between the
+// smallest and the largest value. Together with "Quantile returns r8 of the
+// ascending copy" this is the property's range clause. (Monotonicity in q was
+// attempted as a lemma and did not discharge: q*(n+1/3) under floor is
+// nonlinear.)
+//@ lemma r8_bounds(a []float64, q float64)
+//@   model real
+//@   requires len(a) > 0 && sortedF(a)
+//@   ensures a[0] <= r8(a, q) && r8(a, q) <= a[len(a)-1]
+
 //@ lemma fsum_nonneg(a []float64, k int) induction k
 //@   model real
 //@   requires 0 <= k && k <= len(a) && (forall j in 0..len(a) :: a[j] >= 0)
